@@ -596,7 +596,7 @@ class HtmlTreeView(HtmlView):
 
     if name is not None:
       summary_color = self.get_color(
-          summary_color, root_path + name, value, parent
+          summary_color, root_path, value, parent
       )
     else:
       summary_color = (None, None)
@@ -1140,7 +1140,8 @@ class HtmlTreeView(HtmlView):
       # Compute included keys.
       if callable(include_keys):
         include_keys = [
-            k for k, v in kv.items() if include_keys(root_path + k, v, parent)
+            k for k, v in kv.items()
+            if include_keys(KeyPath(k, root_path), v, parent)
         ]
       elif include_keys is not None:
         include_keys = list(k for k in include_keys if k in kv)
@@ -1151,7 +1152,7 @@ class HtmlTreeView(HtmlView):
       if callable(exclude_keys):
         include_keys = [
             k for k in include_keys if not exclude_keys(
-                root_path + k, kv[k], parent
+                KeyPath(k, root_path), kv[k], parent
             )
         ]
       elif exclude_keys is not None:
@@ -1168,7 +1169,7 @@ class HtmlTreeView(HtmlView):
       else:
         assert callable(key_style), key_style
         for k in include_keys:
-          ks = key_style(root_path + k, kv[k], parent)
+          ks = key_style(KeyPath(k, root_path), kv[k], parent)
           if ks == 'summary':
             summary_keys.append(k)
           elif ks == 'label':
@@ -1177,7 +1178,7 @@ class HtmlTreeView(HtmlView):
       # Render child nodes with summary keys.
       if summary_keys:
         for k in summary_keys:
-          child_path = root_path + k
+          child_path = KeyPath(k, root_path)
           child_kwargs = self.get_child_kwargs(
               inherited_kwargs, child_config, k, root_path
           )
@@ -1189,7 +1190,7 @@ class HtmlTreeView(HtmlView):
         s.write('<table>')
         for k in label_keys:
           v = kv[k]
-          child_path = root_path + k
+          child_path = KeyPath(k, root_path)
           child_kwargs = self.get_child_kwargs(
               inherited_kwargs, child_config, k, root_path
           )
@@ -1337,7 +1338,7 @@ class HtmlTreeView(HtmlView):
       return call_kwargs
 
     return HtmlTreeView.get_kwargs(
-        call_kwargs, child_kwargs, root_path + child_key,
+        call_kwargs, child_kwargs, KeyPath(child_key, root_path),
     )
 
   # pytype: disable=annotation-type-mismatch
